@@ -206,7 +206,8 @@ def pool_jobs(tag, focus, s, nt, nops, work, cfg=None, weights=None, chunks=1, d
         for c in range(chunks):
             sc = GP.pool_script(s * 1000 + c * 17 + (3 if drv == "badger" else 0), max(1, nt // chunks), nops, drv, work, cfg=cfg, weights=weights,
                                 race=(binary != "vipsim"))
-            jobs.append(Job("%s-%s-%d" % (tag, drv, c), sc, "VipPoolTrace", "VipPoolTrace.cfg", focus, binary=binary))
+            tcfg = "VipPoolTrace_fine.cfg" if (cfg or {}).get("tick", 1) > 1 else "VipPoolTrace.cfg"
+            jobs.append(Job("%s-%s-%d" % (tag, drv, c), sc, "VipPoolTrace", tcfg, focus, binary=binary))
     return jobs
 
 
@@ -234,10 +235,19 @@ def race_jobs(tag, s, tier, work, kind="ledger", focus=None):
     return pool_jobs(tag, focus or focus0, s + 77, nt, nops, work, cfg=RACE_CFG, weights=w, chunks=1 if tier == "quick" else 4, binary="viprace")
 
 
+def fine_jobs(tag, focus, s, tier, work, cfg=None, weights=None):
+    """the same sessions with model time in quarter seconds: sub-second elapsed times, intervals that are not whole
+    minutes (1.5 s, 1.75 s, 0.25 s, 62.5 s), boundaries crossed by a fraction of a second"""
+    nt, nops = sized(tier, (10, 45), (160, 70))
+    c = dict(cfg or {})
+    c["tick"] = 4
+    return pool_jobs(tag + "fine", focus, s + 13, nt, nops, work, cfg=c, weights=weights, chunks=1 if tier == "quick" else 4)
+
+
 def pxx(pid, tier, work, replay):
     """development aid: full conformance of the pool to VipPool (focus all)"""
     s = C.seed()
-    jobs = pool_jobs("pxx", "all", s, 20, 40, work) + stack_jobs("pxx", "all", s, tier, work)
+    jobs = pool_jobs("pxx", "all", s, 20, 40, work) + stack_jobs("pxx", "all", s, tier, work) + fine_jobs("pxx", "all", s, tier, work)
     return trace_family(pid, tier, work, [], jobs, [], "dev")
 
 
@@ -296,7 +306,8 @@ c02 = pool_prop(
     lambda tier: [("VipStoreMC", "VipStoreMC_bal.cfg")] + ([("VipPoolMC", "VipPoolMC_bill_q.cfg")] if tier == "quick" else [("VipPoolMC", "VipPoolMC_bill.cfg")]),
     cfg=dict(longsleep=True),
     weights=dict(update=50, sleep=20, forged=2, withdraw=1, peer=4, close=1, reopen=1, mode=1, stale=1, addnode=6, reconnect=6),
-    extra_jobs=lambda s, tier, work: stack_jobs("c02", "C02", s, tier, work))
+    extra_jobs=lambda s, tier, work: stack_jobs("c02", "C02", s, tier, work) + fine_jobs(
+        "c02", "C02", s, tier, work, weights=dict(update=50, sleep=25, forged=1, addnode=5, reconnect=6, peer=2)))
 
 c03 = pool_prop(
     "c03", "C03",
@@ -304,7 +315,9 @@ c03 = pool_prop(
     "keep-alives are refused for balance, the reported balance, the disconnect instructions sent to hosts",
     lambda tier: [("VipStoreMC", "VipStoreMC_bal.cfg")] + ([("VipPoolMC", "VipPoolMC_bill_q.cfg")] if tier == "quick" else [("VipPoolMC", "VipPoolMC_bill.cfg")]),
     cfg=dict(minbal=None, staircase=True),
-    weights=dict(update=40, sleep=14, deposit=8, credit=8, addnode=8, reconnect=10, client=3, forged=2))
+    weights=dict(update=40, sleep=14, deposit=8, credit=8, addnode=8, reconnect=10, client=3, forged=2),
+    extra_jobs=lambda s, tier, work: fine_jobs("c03", "C03", s, tier, work, cfg=dict(minbal=None, staircase=True),
+                                               weights=dict(update=40, sleep=18, deposit=8, credit=8, addnode=6, reconnect=8)))
 
 c04 = pool_prop(
     "c04", "C04",
@@ -374,6 +387,7 @@ def c05(pid, tier, work, replay):
     pt, pops = sized(tier, (16, 45), (300, 70))
     jobs += pool_jobs("c05p", "C05", s, pt, pops, work, weights=dict(stale=30, legacy=10, update=25, sleep=12, forged=4, burst=4, sburst=4),
                       chunks=1 if tier == "quick" else 4)
+    jobs += fine_jobs("c05p", "C05", s, tier, work, weights=dict(stale=30, legacy=10, update=25, sleep=14, forged=3))
     jobs += nonce_race_jobs("c05race", s, tier, work)
     return trace_family(
         pid, tier, work, [("VipStoreMC", "VipStoreMC_nonce.cfg")], jobs,
@@ -393,6 +407,7 @@ def c11(pid, tier, work, replay):
     jobs += pool_jobs("c11p", "C11", s, pt, pops, work, weights=dict(update=55, sleep=25, reconnect=6, forged=2),
                       chunks=1 if tier == "quick" else 4)
     jobs += stack_jobs("c11", "C11", s, tier, work)
+    jobs += fine_jobs("c11p", "C11", s, tier, work, weights=dict(update=55, sleep=25, reconnect=6, forged=1))
     return trace_family(
         pid, tier, work, [("VipStoreMC", "VipStoreMC_peer_q.cfg" if tier == "quick" else "VipStoreMC_peer.cfg")], jobs,
         ["a node reporting itself as its own peer is a documented don't-care and is not generated"] + POOL_ASSUME,
